@@ -41,6 +41,7 @@ func cfg(rf int, za bool) ring.Config {
 func cfgOf(c lookupCase) ring.Config {
 	out := cfg(c.RF, c.ZA)
 	out.HeartbeatTimeout += time.Duration(c.TimeoutExtraMs) * time.Millisecond
+	out.ExcludedZones = c.Excluded
 	return out
 }
 
@@ -52,6 +53,28 @@ type lookupCase struct {
 	// seconds), with a heartbeat timeout of timeoutSec seconds + TimeoutExtraMs milliseconds
 	FracMs         int `json:"frac_ms"`
 	TimeoutExtraMs int `json:"timeout_extra_ms"`
+	// zones the client is configured to leave out: their instances are not part of the ring it sees
+	Excluded []string `json:"excluded_zones,omitempty"`
+}
+
+// seen returns the instances that make up the ring for the client: all but those of excluded zones.
+func (c lookupCase) seen() []gen.Inst {
+	if len(c.Excluded) == 0 {
+		return c.Ins
+	}
+	var out []gen.Inst
+	for _, in := range c.Ins {
+		ex := false
+		for _, z := range c.Excluded {
+			if z == in.Zone {
+				ex = true
+			}
+		}
+		if !ex {
+			out = append(out, in)
+		}
+	}
+	return out
 }
 
 func (c lookupCase) timeoutMs() int64 { return timeoutSec*1000 + int64(c.TimeoutExtraMs) }
@@ -87,7 +110,7 @@ func get(r *ring.Ring, key uint32, op ring.Operation, variant int) (ring.Replica
 func checkLookups(r *ring.Ring, c lookupCase, keys []uint32, record bool) error {
 	for ki, key := range keys {
 		for oi, o := range ops {
-			w, exp := model.LookupAt(c.Ins, key, o.Op, c.RF, c.ZA, c.timeoutMs(), int64(c.FracMs))
+			w, exp := model.LookupAt(c.seen(), key, o.Op, c.RF, c.ZA, c.timeoutMs(), int64(c.FracMs))
 			rs, err := get(r, key, o.Op, ki+oi)
 			if record {
 				vx.Eval(1)
@@ -189,6 +212,19 @@ func genCase(rt *rapid.T) lookupCase {
 func TestWalkRapid(t *testing.T) {
 	rapid.Check(t, func(rt *rapid.T) {
 		c := genCase(rt)
+		if rapid.IntRange(0, 7).Draw(rt, "excludeZone") == 0 {
+			// the client is configured to leave a zone out (zone names only: an empty name is no zone)
+			var zs []string
+			for _, in := range c.Ins {
+				if in.Zone != "" {
+					zs = append(zs, in.Zone)
+				}
+			}
+			if len(zs) > 0 {
+				c.Excluded = []string{zs[rapid.IntRange(0, len(zs)-1).Draw(rt, "excluded")]}
+				vx.Class("clients_configured_to_leave_a_zone_out", 1)
+			}
+		}
 		keys := gen.BoundaryKeys(c.Ins, rapid.Uint32().Draw(rt, "k1"), rapid.Uint32().Draw(rt, "k2"), rapid.Uint32().Draw(rt, "k3"), rapid.Uint32().Draw(rt, "k4"))
 		vx.Class("rings", 1)
 		if vx.WantSample("ring_lookup_case") && len(c.Ins) >= 2 && len(c.Ins) <= 4 {
